@@ -153,3 +153,17 @@ PROPS["C04"] = dict(
     outside="logs longer than the bound; graph shape (legitimately nondeterministic); transport of the snapshot; per-entry outcomes on followers are not observable (no notification channel exists there) - equality of contents after every log is what is compared",
     assumptions=HNSW_ASSUME + ["proto.Marshal/Unmarshal are an opaque codec (deep copy)"],
 )
+
+PROPS["C16"] = dict(
+    level="model_checking",
+    technique="bounded symbolic execution of go/ssa (gosmt): every Fisher-Yates outcome of every shuffle and every N,R,P in the bound is a path; independence is a cover obligation over all paths (no solver variables occur: the verdict is by exhaustive path enumeration)",
+    explanation="Allocator.getPartitionsNodeIds over a real cluster.Conn address book; assertions on every list; cover: some shuffle outcome gives two partitions different replica sets",
+    runs={
+        "quick": [dict(pkg="./storage", entry="VerifC16", bounds="maxn=3,maxr=3,maxp=2", reach=["placed"],
+                       cover=["two-partitions-can-get-different-replica-sets", "two-partitions-can-get-the-same-replica-set"])],
+        "thorough": [dict(pkg="./storage", entry="VerifC16", bounds="maxn=4,maxr=3,maxp=3,maporder=1", reach=["placed"],
+                          cover=["two-partitions-can-get-different-replica-sets", "two-partitions-can-get-the-same-replica-set"])],
+    },
+    outside="N>4, R>3, P>3; the distribution of placements (only possibility of difference is decided, not uniformity); embedding of the placement in the create-dataset proposal is covered by the C12/C14 harnesses",
+    assumptions=COMMON_ASSUME + ["math/rand.Shuffle is replaced by a Fisher-Yates stub whose every choice is a path decision"],
+)
